@@ -42,6 +42,7 @@ def cases(draw, tier="quick"):
         case["graph"] = {"kind": "full"}
     case["prios"] = draw(st.lists(st.lists(st.integers(0, 30), min_size=n, max_size=n), min_size=2, max_size=4))
     case["pools"] = sorted(draw(st.sets(st.sampled_from([1, 2, 4, 8]), min_size=1, max_size=2)))
+    case["sac"] = bool(case["seeded"]) and draw(st.integers(0, 3)) == 0
     return case
 
 
@@ -73,6 +74,8 @@ def state_of(b, brokers, shared):
         seen.add(id(br))
         for c, v in br.instances.items():
             i = b.index.get(c)
+            if i is None and getattr(c, "__name__", "") == "SerializedArchiveContext":
+                continue        # the context object the harness itself put there
             if i is None:
                 raise Violation("value stored for a component outside the graph: %r" % (c,))
             if i in vals and not shared:
@@ -109,6 +112,11 @@ def _fresh_broker(case, b):
     broker.store_skips = case["store_skips"]
     for i in case["seeded"]:
         broker[b.comps[i]] = dyn.seed_value(case, i)
+    if case.get("sac"):
+        # a broker hydrated from a serialized archive: dr.run() then leaves out the direct dependencies of
+        # everything the archive already supplied
+        from insights.core.context import SerializedArchiveContext
+        broker[SerializedArchiveContext] = SerializedArchiveContext()
     return broker
 
 
@@ -134,15 +142,16 @@ def run_schedules(case, b, which=None):
     br = _fresh_broker(case, b)
     dr.run(fresh_graph(), broker=br)
     record("run", [br])
-    # (ii) linear extensions chosen by the harness
+    # (ii) linear extensions chosen by the harness (not with a serialized-archive broker: the pruning of
+    # already supplied components' dependencies is done by dr.run, which run_components bypasses)
     orders = set()
-    for k, prio in enumerate(case["prios"]):
+    for k, prio in enumerate([] if case.get("sac") else case["prios"]):
         order = dyn.linear_extension(case, active, prio)
         orders.add(tuple(order))
         br = _fresh_broker(case, b)
         dr.run_components([comps[i] for i in order], fresh_graph(), br)
         record("linear-extension-%d" % k, [br])
-    for name, prio in (("reverse-index", None),):
+    for name, prio in (() if case.get("sac") else (("reverse-index", None),)):
         order = dyn.linear_extension(case, active, [len(comps) - i for i in range(len(comps))])
         orders.add(tuple(order))
         br = _fresh_broker(case, b)
@@ -155,7 +164,7 @@ def run_schedules(case, b, which=None):
     br = _fresh_broker(case, b)
     got = dr.run_all(fresh_graph(), broker=br)
     record("run_all-shared", got or [br])
-    plain = not case["seeded"] and not case["store_skips"]
+    plain = not case["seeded"] and not case["store_skips"] and not case.get("sac")
     if plain:
         got = list(dr.run_incremental(fresh_graph()))
         record("incremental-separate", got, shared=False)
@@ -201,6 +210,12 @@ def check(case):
     try:
         nsub = check_partition(case, b)
         results, active, norders = run_schedules(case, b)
+        if case.get("sac"):
+            pruned = set()
+            for i in case["seeded"]:
+                if i in active:
+                    pruned |= dyn.dep_set(case["nodes"][i])
+            active = set(active) - pruned
         ex = dyn.model(case, active)
         want_vals = dict((i, dyn.to_json(v)) for i, v in ex.val.items())
         want_miss = dict((i, _canon_missing(m)) for i, m in ex.missing.items())
@@ -317,6 +332,99 @@ def check_hashseeds(case):
             "key": [dyn.digest(json.dumps(c, sort_keys=True)) for c in batch]}
 
 
+# ---- overriding spec implementations under every schedule ---------------------------------------------
+
+def check_override(case):
+    """Spec sets with several implementations of one spec for the same context (no dependency edge
+    between the sibling implementations): which of the siblings the schedule happens to run first must
+    not change any value, recorded failure, missing report or which bodies ran."""
+    from insights.core import dr
+    from vp.props import c05
+    wcase = case["world"]
+    c05._validate(wcase)
+    uid = next(c05._counter)
+    log, parsed = [], []
+    world = None
+    try:
+        world = c05._build(wcase, uid, log, parsed)
+        for si in range(len(wcase["sets"])):
+            world["define_set"](si)
+        world["define_parsers"]()
+        graph = {}
+        for ps in world["parsers"]:
+            graph.update(dr.get_dependency_graph(ps))
+        comps = sorted(graph, key=lambda c: dr.get_name(c))
+        idx = dict((c, k) for k, c in enumerate(comps))
+        active = case["active"] % wcase["nctx"]
+        ctx_cls = world["ctxs"][active]
+
+        def kahn(prio):
+            remaining = set(comps)
+            out = []
+            while remaining:
+                ready = [c for c in remaining if not (set(graph[c]) & remaining)]
+                ready.sort(key=lambda c: (prio[idx[c] % len(prio)], idx[c]))
+                out.append(ready[0])
+                remaining.discard(ready[0])
+            return out
+
+        def state(broker):
+            vals = dict((dr.get_name(c), repr(v) if c not in world["ctxs"] else "ctx") for c, v in broker.instances.items())
+            excs = dict((dr.get_name(c), sorted(type(e).__name__ for e in lst)) for c, lst in broker.exceptions.items() if lst)
+            miss = sorted(dr.get_name(c) for c in broker.missing_requirements)
+            calls = sorted(repr(e) for e in log)
+            return {"values": vals, "exceptions": excs, "missing": miss, "calls": calls}
+
+        results = []
+
+        def fresh():
+            del log[:]
+            del parsed[:]
+            br = dr.Broker()
+            br.store_skips = bool(wcase.get("store_skips"))
+            br[ctx_cls] = ctx_cls()
+            return br
+        br = fresh()
+        dr.run(dict((k, set(v)) for k, v in graph.items()), broker=br)
+        results.append(("run", state(br)))
+        orders = set()
+        for k, prio in enumerate(case["prios"] + [[len(comps) - i for i in range(len(comps))]]):
+            order = kahn(prio)
+            orders.add(tuple(idx[c] for c in order))
+            br = fresh()
+            dr.run_components(order, dict((k2, set(v)) for k2, v in graph.items()), br)
+            results.append(("linear-extension-%d" % k, state(br)))
+        br = fresh()
+        dr.run_all(dict((k, set(v)) for k, v in graph.items()), broker=br)
+        results.append(("run_all", state(br)))
+        base = results[0]
+        for label, st_ in results[1:]:
+            if st_ != base[1]:
+                diff = [k for k in ("values", "exceptions", "missing", "calls") if st_[k] != base[1][k]]
+                raise Violation("schedule %s ends in a different state than %s (%s differ): %r vs %r" % (
+                    label, base[0], "/".join(diff), dict((k, st_[k]) for k in diff), dict((k, base[1][k]) for k in diff)))
+        overrides = sum(1 for p in range(len(wcase["points"]))
+                        if sum(1 for s_ in wcase["sets"] for im in s_ if im["point"] == p) >= 2)
+        return {"nontrivial": overrides >= 1 and len(orders) >= 2,
+                "labels": ["overridden-points=%d" % min(overrides, 3), "orders=%d" % min(len(orders), 4)]}
+    finally:
+        if world is not None:
+            c05._cleanup(world["comps"], world["ctxs"], world["modname"])
+
+
+@st.composite
+def override_cases(draw, tier="quick"):
+    from vp.props import c05
+    w = draw(c05._world(tier))
+    w.pop("eval_after", None)
+    return {"world": w, "active": draw(st.integers(0, 3)),
+            "prios": draw(st.lists(st.lists(st.integers(0, 40), min_size=4, max_size=12), min_size=2, max_size=4))}
+
+
+def strat_override(tier):
+    return override_cases(tier)
+
+
 def strat(tier):
     return cases(tier)
 
@@ -332,6 +440,7 @@ def strat_hs(tier):
 
 
 SUBS = [
+    Sub("override", check_override, strategy=strat_override, quick=1200, thorough=6000, workers_quick=3),
     Sub("schedules", check, strategy=strat, quick=1000, thorough=5000, workers_quick=4),
     Sub("hashseeds", check_hashseeds, strategy=strat_hs, quick=6, thorough=12, workers_quick=2, workers_thorough=4,
         budget_quick=90, budget_thorough=900),
@@ -339,6 +448,14 @@ SUBS = [
 
 _N = {"multi": 0, "efaults": ["ok"], "coe": True, "decl": [], "fault": "ok"}
 REGRESSIONS = [
+    # finding C04-sac-keyerror (fixed): a pre-populated component that is a dependency of another
+    # pre-populated one made dr.run raise KeyError for some dict orders under a serialized-archive broker
+    Reg("serialized-archive-nested-seeds", "schedules", {
+        "seeded": [0, 1, 3], "seed_vals": {}, "disabled": [], "store_skips": False, "graph": {"kind": "full"}, "sac": True,
+        "prios": [[0, 1, 2, 3, 4]], "pools": [2],
+        "nodes": [dict(_N, t="component"), dict(_N, t="component", decl=[["req", 0]]),
+                  dict(_N, t="combiner", decl=[["req", 1], ["opt", 0]]), dict(_N, t="component", decl=[["grp", [1, 0]]]),
+                  dict(_N, t="rule", decl=[["req", 3], ["opt", 2]])]}),
     Reg("two-parts-with-fault", "schedules", {
         "seeded": [], "disabled": [], "store_skips": False, "graph": {"kind": "full"},
         "prios": [[0, 1, 2, 3, 4, 5], [5, 4, 3, 2, 1, 0]], "pools": [2, 4],
